@@ -429,6 +429,38 @@ class AliasTracer:
         return self.local
 
 
+def skeleton_alias_ids(r):
+    """flow-insensitive closure of the bind edges, on variable ids: {id: set of parameter ids}.  NOT trusted: it is passed to Coq as the
+    certificate E of FlowIns.fi_ok (C15_flow_insensitive_alias_sound) in the same evaluation as the frame obligation."""
+    edges = []
+
+    def walk(ir):
+        for st in ir:
+            if st[0] == "bind" and st[2]:
+                edges.append((st[1], list(st[2])))
+            elif st[0] == "if":
+                walk(st[1]); walk(st[2])
+            elif st[0] == "loop":
+                walk(st[1])
+    walk(r["ir"])
+    E = {pid: {pid} for pid in r["params"]}
+    changed = True
+    while changed:
+        changed = False
+        for x, ys in edges:
+            acc = E.setdefault(x, set())
+            for y in ys:
+                new = E.get(y, set()) - acc
+                if new:
+                    acc |= new
+                    changed = True
+    return E
+
+
+def coq_amap(E):
+    return "[%s]" % "; ".join("(%d, [%s])" % (x, "; ".join(str(p) for p in sorted(ps))) for x, ps in sorted(E.items()) if ps)
+
+
 def skeleton_alias_names(r):
     """flow-insensitive closure of the bind edges of an extracted skeleton: for every LOCAL NAME (frame numbers dropped) the set of
     parameter names a variable of that name may alias at some point"""
@@ -1039,7 +1071,8 @@ def static_step(ctx, only=None):
             except Exception as e:
                 ctx.notes.append("skeleton_alias_names failed for %s: %s" % (n, e))
         evn.append(n)
-        terms.append("frame_ret %s [%s] %d" % (r["coq"], "; ".join(map(str, r["params"])), rid[0] if rid else 1))
+        terms.append("frame_ret_cert %s [%s] %d %s" % (r["coq"], "; ".join(map(str, r["params"])), rid[0] if rid else 1,
+                                                       coq_amap(skeleton_alias_ids(r))))
     vals_by = {}
     uniq = list(dict.fromkeys(terms))        # drivers that differ only in a value the skeleton does not see (a delimiter) share one term
     ctx.count("static:distinct_terms", len(uniq))
@@ -1050,12 +1083,17 @@ def static_step(ctx, only=None):
             vals_by[n] = [int(x.replace("%Z", "").strip("() ")) for x in uvals[t].strip("[]").split(";") if x.strip()]
     except core.CoqEvalError as e:
         ctx.notes.append("generated static obligations do not evaluate: " + str(e)[-600:])
-    ctx.checker_cmds.append("coqc <generated: frame_ret skeleton params ret, one per (function, valuation), vm_compute; head 0 = frame_ok holds>")
+    ctx.checker_cmds.append("coqc <generated: frame_ret_cert skeleton params ret E, one per (function, valuation), vm_compute; head 0 = frame_ok holds>")
     TIMES["static:coq_eval"] = round(time.time() - t0, 1)
     failed, why = [], {}
+    cert_bad = []
     for n in names:
         d = D(n)
         nums = vals_by.get(n)
+        if nums:
+            if nums[-1] != 100:
+                cert_bad.append(n)
+            nums = nums[:-1]
         ok = bool(nums) and nums[0] == 0
         STATIC_OK[n] = ok
         has_ret = any(v == "0:<ret>" for v in ex[n].get("names", {}).values())
@@ -1075,6 +1113,12 @@ def static_step(ctx, only=None):
                 why[n] = "loop analysis did not stabilise within the fuel"
             else:
                 why[n] = "frame_ret = %s" % nums
+    ctx.obligation("flow-insensitive alias certificates: FlowIns.fi_ok holds for the closure of every extracted skeleton (%d)" % len(vals_by),
+                   not cert_bad and len(vals_by) == len(evn), ", ".join(cert_bad[:8]))
+    if cert_bad:
+        ctx.violation("the alias closure computed by the harness is not a valid certificate (FlowIns.fi_ok false) for: " + ", ".join(cert_bad[:5]),
+                      {"kind": "alias-certificate", "drivers": cert_bad, "no_longer_checks": "premise of C15_flow_insensitive_alias_sound"},
+                      found_input=False)
     ctx.count("ret_alias:drivers_whose_result_may_alias_an_argument", sum(1 for n in names if RET_STATIC.get(n)))
     st = os.environ.get("C15_SELFTEST", "")
     if st.startswith("drop-ret:"):          # self-test of the alias correspondence: forget the prediction for one driver
